@@ -165,29 +165,67 @@ Proof.
   - apply lt_IZR. apply Rle_lt_trans with (IZR a + r * (IZR b - IZR a)); [apply Zfloor_lb | tauto].
 Qed.
 
-(* binary64: the draw that hits max.  v is the raw 64-bit value of draw 1903775 after setSeed(1). *)
-Lemma uniform_int_in_range_binary64_refuted :
+(* ---- binary64, the code since commit 181ff92a (clamped expression): the documented range [min,max)
+   holds for integer bounds and EVERY 64-bit draw, including the 1024 draws whose unit value is 1.0 *)
+Lemma uniform_value_in_range_binary64 a b v :
+  (- 2 ^ 31 <= a)%Z -> (a < b)%Z -> (b <= 2 ^ 31)%Z -> (v < 2 ^ 64)%N ->
+  is_finite (uniform_value (fofZ a) (fofZ b) v) = true /\
+  IZR a <= B2R (uniform_value (fofZ a) (fofZ b) v) < IZR b.
+Proof. intros Ha Hab Hb Hv. destruct (uniform_value_clamped_spec a b v Ha Hab Hb Hv) as (F & R & _). now split. Qed.
+
+Lemma uniform_int_in_range_binary64 a b v :
+  (- 2 ^ 31 <= a)%Z -> (a < b)%Z -> (b <= 2 ^ 31)%Z -> (v < 2 ^ 64)%N ->
+  (a <= uniform_int (fofZ a) (fofZ b) v < b)%Z.
+Proof.
+  intros Ha Hab Hb Hv. destruct (uniform_value_clamped_spec a b v Ha Hab Hb Hv) as (F & [R1 R2] & _).
+  unfold uniform_int. rewrite floorZ_spec by assumption. split.
+  - now apply Zfloor_lub.
+  - apply lt_IZR. eapply Rle_lt_trans; [apply Zfloor_lb | exact R2].
+Qed.
+
+(* the fix changes a result only when the old expression was outside the documented range *)
+Lemma uniform_clamp_inactive a b v :
+  (- 2 ^ 31 <= a)%Z -> (a < b)%Z -> (b <= 2 ^ 31)%Z -> (v < 2 ^ 64)%N ->
+  B2R (uniform_value_raw (fofZ a) (fofZ b) v) < IZR b ->
+  B2R (uniform_value (fofZ a) (fofZ b) v) = B2R (uniform_value_raw (fofZ a) (fofZ b) v).
+Proof.
+  intros Ha Hab Hb Hv H. destruct (uniform_value_raw_spec a b v Ha Hab Hb Hv) as [E _]. rewrite E in *.
+  destruct (uniform_value_clamped_spec a b v Ha Hab Hb Hv) as (_ & _ & K). now apply K.
+Qed.
+
+(* the old witnesses stay in range now: draw 1903775 of seed 1 for Uniform(2^30,2^30+1), and the raw value
+   2^64-1 (unit value exactly 1.0) for Uniform(0,1) gives the largest double below 1 *)
+Example fixed_witness_in_range :
+  uniform_int (fofZ 1073741824) (fofZ 1073741825) 18446742594892032221 = 1073741824%Z /\
+  bits_of (uniform_value (fofZ 0) (fofZ 1) 18446744073709551615) = 4607182418800017407%Z /\
+  uniform_int (fofZ 1) (fofZ 2) (2 ^ 64 - 2 ^ 10 - 1) = 1%Z.
+Proof. vm_compute. repeat split; reflexivity. Qed.
+
+(* ---- regression lemmas about the expression min + r*range that getValue returned before commit 181ff92a
+   (uniform_value_raw / uniform_int_raw): they say when the clamp of the fix is inactive and record the old
+   overshoot.  binary64: the draw that hit max.  v is the raw 64-bit value of draw 1903775 after setSeed(1). *)
+Lemma prefix_uniform_int_overshoot :
   exists v, (v < 2 ^ 64 - 2 ^ 10)%N /\ B2R (res53 v) < 1 /\
-    uniform_int (fofZ 1073741824) (fofZ 1073741825) v = 1073741825%Z.
+    uniform_int_raw (fofZ 1073741824) (fofZ 1073741825) v = 1073741825%Z.
 Proof.
   exists 18446742594892032221%N. split; [reflexivity|]. split.
   - apply res53_in_unit_interval_partial. reflexivity.
   - vm_compute. reflexivity.
 Qed.
 
-Lemma uniform_int_binary64_lower_bound a b v :
+Lemma prefix_uniform_int_lower_bound a b v :
   (- 2 ^ 31 <= a)%Z -> (a < b)%Z -> (b <= 2 ^ 31)%Z -> (v < 2 ^ 64)%N ->
-  (a <= uniform_int (fofZ a) (fofZ b) v)%Z.
+  (a <= uniform_int_raw (fofZ a) (fofZ b) v)%Z.
 Proof.
-  intros. rewrite uniform_int_spec by assumption. apply Zfloor_lub.
+  intros. rewrite uniform_int_raw_spec by assumption. apply Zfloor_lub.
   apply uniform_R_ge_min; [lia | assumption | apply res53_unit_closed; assumption].
 Qed.
 
-Lemma uniform_value_binary64_closed_partial a b v :
+Lemma prefix_uniform_value_closed a b v :
   (- 2 ^ 31 <= a)%Z -> (a < b)%Z -> (b <= 2 ^ 31)%Z -> (v < 2 ^ 64)%N ->
-  IZR a <= B2R (uniform_value (fofZ a) (fofZ b) v) <= IZR b.
+  IZR a <= B2R (uniform_value_raw (fofZ a) (fofZ b) v) <= IZR b.
 Proof.
-  intros Ha Hab Hb Hv. destruct (uniform_value_spec a b v Ha Hab Hb Hv) as [E _]. rewrite E.
+  intros Ha Hab Hb Hv. destruct (uniform_value_raw_spec a b v Ha Hab Hb Hv) as [E _]. rewrite E.
   pose proof (res53_unit_closed v Hv) as Hr. split.
   - apply uniform_R_ge_min; [lia | assumption | tauto].
   - unfold uniform_R. apply rnd_le_generic; [apply fmt_IZR; lia|].
@@ -197,33 +235,33 @@ Proof.
     rewrite minus_IZR in *. lra.
 Qed.
 
-Lemma uniform_int_binary64_monotone a b v1 v2 :
+Lemma prefix_uniform_int_monotone a b v1 v2 :
   (- 2 ^ 31 <= a)%Z -> (a < b)%Z -> (b <= 2 ^ 31)%Z -> (v1 <= v2)%N -> (v2 < 2 ^ 64)%N ->
-  (uniform_int (fofZ a) (fofZ b) v1 <= uniform_int (fofZ a) (fofZ b) v2)%Z.
+  (uniform_int_raw (fofZ a) (fofZ b) v1 <= uniform_int_raw (fofZ a) (fofZ b) v2)%Z.
 Proof.
-  intros Ha Hab Hb H12 H2. rewrite !uniform_int_spec by (assumption || lia).
+  intros Ha Hab Hb H12 H2. rewrite !uniform_int_raw_spec by (assumption || lia).
   apply Zfloor_le. apply uniform_R_mono; [assumption | now apply res53_mono].
 Qed.
 
 (* the range claim for one interval is decided by the single largest draw below 1 *)
-Lemma uniform_int_in_range_binary64_criterion a b :
+Lemma prefix_uniform_int_criterion a b :
   (- 2 ^ 31 <= a)%Z -> (a < b)%Z -> (b <= 2 ^ 31)%Z ->
-  (uniform_int (fofZ a) (fofZ b) (2 ^ 64 - 2 ^ 10 - 1) < b)%Z ->
-  forall v, (v < 2 ^ 64 - 2 ^ 10)%N -> (a <= uniform_int (fofZ a) (fofZ b) v < b)%Z.
+  (uniform_int_raw (fofZ a) (fofZ b) (2 ^ 64 - 2 ^ 10 - 1) < b)%Z ->
+  forall v, (v < 2 ^ 64 - 2 ^ 10)%N -> (a <= uniform_int_raw (fofZ a) (fofZ b) v < b)%Z.
 Proof.
   intros Ha Hab Hb Htop v Hv. split.
-  - apply uniform_int_binary64_lower_bound; (assumption || lia).
+  - apply prefix_uniform_int_lower_bound; (assumption || lia).
   - eapply Z.le_lt_trans; [|exact Htop].
-    apply uniform_int_binary64_monotone; (assumption || lia).
+    apply prefix_uniform_int_monotone; (assumption || lia).
 Qed.
 
-Lemma uniform_int_in_range_binary64_min0 b v :
+Lemma prefix_uniform_int_min0 b v :
   (1 <= b)%Z -> (b <= 2 ^ 31)%Z -> (v < 2 ^ 64 - 2 ^ 10)%N ->
-  (0 <= uniform_int (fofZ 0) (fofZ b) v < b)%Z.
+  (0 <= uniform_int_raw (fofZ 0) (fofZ b) v < b)%Z.
 Proof.
   intros Hb1 Hb2 Hv. assert (Hv' : (v < 2 ^ 64)%N) by lia. split.
-  - apply uniform_int_binary64_lower_bound; (assumption || lia).
-  - rewrite uniform_int_spec by (assumption || lia). unfold uniform_R.
+  - apply prefix_uniform_int_lower_bound; (assumption || lia).
+  - rewrite uniform_int_raw_spec by (assumption || lia). unfold uniform_R.
     rewrite Z.sub_0_r, Rplus_0_l. rewrite (rnd_generic (rnd _)) by apply rnd_format.
     pose proof (res53_below_one v Hv) as Hr. fold u1 in Hr.
     pose proof (res53_unit_closed v Hv') as Hr0.
@@ -318,13 +356,13 @@ Proof.
 Qed.
 
 (* ================================================================ non-vacuity / concrete instances *)
-(* the criterion's hypothesis holds for (-5,5) and fails already for (1,2): with the largest unit
-   value below 1, min + r*range = 2 - 2^-53 rounds to 2 *)
-Example criterion_holds_m5_5 : (uniform_int (fofZ (-5)) (fofZ 5) (2 ^ 64 - 2 ^ 10 - 1) < 5)%Z.
+(* pre-fix expression: the criterion's hypothesis holds for (-5,5) and fails already for (1,2): with the
+   largest unit value below 1, min + r*range = 2 - 2^-53 rounds to 2 *)
+Example criterion_holds_m5_5 : (uniform_int_raw (fofZ (-5)) (fofZ 5) (2 ^ 64 - 2 ^ 10 - 1) < 5)%Z.
 Proof. vm_compute. reflexivity. Qed.
-Example criterion_fails_1_2 : uniform_int (fofZ 1) (fofZ 2) (2 ^ 64 - 2 ^ 10 - 1) = 2%Z.
+Example criterion_fails_1_2 : uniform_int_raw (fofZ 1) (fofZ 2) (2 ^ 64 - 2 ^ 10 - 1) = 2%Z.
 Proof. vm_compute. reflexivity. Qed.
-Example criterion_fails_100_101 : uniform_int (fofZ 100) (fofZ 101) (2 ^ 64 - 2 ^ 10 - 1) = 101%Z.
+Example criterion_fails_100_101 : uniform_int_raw (fofZ 100) (fofZ 101) (2 ^ 64 - 2 ^ 10 - 1) = 101%Z.
 Proof. vm_compute. reflexivity. Qed.
 Example gauss_accepts_example : accepted RG (centred RG (1 / 2)) (centred RG (3 / 4)) = true.
 Proof.
